@@ -43,6 +43,7 @@ def b01 (b : Bool) : String := if b then "1" else "0"
 def handle2 (cmd : String) (xs : List Int) : Option String :=
   match cmd, xs with
   | "fl.dec", [f, bits] => (fmt? f).map fun f => (decode f bits.toNat).show
+  | "fl.le", [f, bx, by'] => (fmt? f).map fun f => b01 (le (decode f bx.toNat) (decode f by'.toNat))
   | "fl.from", [t, bits] => (fxTy? t).map fun t => toString (FixedConv.fromFloat t (decode t.fmt bits.toNat))
   | "fl.to", [t, raw] => (fxTy? t).map fun t => (FixedConv.toFloat t raw).show
   | "fl.tof32", [k, raw] => some (FixedConv.toF32Lossy k.toNat raw).show
